@@ -93,3 +93,31 @@ Theorem C02_conc_wake_all :
     c_wakers s' = [] /\ c_woken s' = c_woken s ++ c_wakers s.
 Proof. intros V fixed s t s'; apply conc_wake_all. Qed.
 Print Assumptions C02_conc_wake_all.
+
+(* ---------------- threads running programs, every schedule (ObsConcProg.v) ---------------- *)
+From EB Require Import ObsConcLin ObsConcProg.
+
+(* a poll that decides Pending registers its waker at that very micro-step (holding both locks) *)
+Theorem C02_programs_pending_registers :
+  forall (V : Type) (s s' : cstate V) t th th' k,
+    nth_error (c_threads s) t = Some th -> t_op th = CPoll k ->
+    cstep true s t = Advanced s' ->
+    nth_error (c_threads s') t = Some th' -> t_pc th' = PPollDecided Pending ->
+    t_pc th = PPollMetaLocked /\ In k (c_wakers s').
+Proof. intros V s s' t th th' k; apply prog_pending_registers. Qed.
+Print Assumptions C02_programs_pending_registers.
+
+(* ... and whatever the threads' programs do afterwards, however they are scheduled, a registered
+   waker stays registered until it is woken *)
+Theorem C02_programs_no_lost_wakeup :
+  forall (V : Type) (v : V) ver clones subs pending progs sched1 sched2 k,
+    value_ops (all_ops progs) ->
+    (forall k, In (CPoll k) (all_ops progs) -> k < length subs) ->
+    1 <= clones ->
+    let p1 := prun (pinit v ver clones subs pending progs) sched1 in
+    let p2 := prun p1 sched2 in
+    In k (c_wakers (p_s p1)) ->
+    In k (c_wakers (p_s p2)) \/
+    In k (skipn (length (c_woken (p_s p1))) (c_woken (p_s p2))).
+Proof. intros V v ver clones subs pending progs sched1 sched2 k; apply prog_no_lost_wakeup. Qed.
+Print Assumptions C02_programs_no_lost_wakeup.
